@@ -35,6 +35,7 @@ def main():
     ap.add_argument("--needs", default="")
     ap.add_argument("--refresh", default="", help="ID under /verif/seeded: re-run only the checks against the kept patch and update its meta.json")
     ap.add_argument("--scratch", action="store_true", help="run the checks on a scratch copy (TCHK_REPO) instead of applying the patch to /repo (used while /repo is busy)")
+    ap.add_argument("--from-log", default="", help="take the confirmation results from the log this tool wrote in an earlier run of the same seed (the checks are re-run)")
     a = ap.parse_args()
     if a.refresh:
         a.seed = os.path.join(ROOT, "seeded", a.refresh)
@@ -46,6 +47,35 @@ def main():
     for d in demos:
         tests += re.findall(r"^func (Test\w+)\(", open(d).read(), re.M)
     runre = "^(" + "|".join(tests) + ")$"
+    if a.from_log:
+        # the confirmation was run earlier by this tool (same seed directory);
+        # its results are read back from the log it printed
+        log = open(a.from_log, errors="replace").read()
+        m1 = re.search(r"^demo with change: exit (\d+)", log, re.M)
+        m2 = re.search(r"^demo without change: exit (\d+)", log, re.M)
+        m3 = re.search(r"^suite with change: (.*) exit (\d+)$", log, re.M)
+        assert m1 and m2 and m3, "log lacks the confirmation lines"
+        pkgdir = {"tchannel": ".", "tchannel_test": ".", "thrift": "thrift", "thrift_test": "thrift", "json": "json", "json_test": "json",
+                  "http": "http", "http_test": "http", "typed": "typed", "typed_test": "typed", "argreader": "internal/argreader", "relay": "relay", "relay_test": "relay", "arg2": "thrift/arg2", "arg2_test": "thrift/arg2"}
+        bydir = {}
+        for d in demos:
+            m = re.search(r"^package (\w+)", open(d).read(), re.M)
+            bydir.setdefault(pkgdir.get(m.group(1) if m else "", "."), []).append(d)
+        meta["ran"].append("git apply patch.diff && go build ./... : ok")
+        for label, mm in (("with the change", m1), ("without the change", m2)):
+            for sub, files in sorted(bydir.items()):
+                ts = []
+                for d in files:
+                    ts += re.findall(r"^func (Test\w+)\(", open(d).read(), re.M)
+                cmd = ["go", "test", "-count=1", "-timeout", "240s", "-run", "^(" + "|".join(ts) + ")$"] + (["-race"] if a.race else []) + ["."]
+                meta["ran"].append("%s (in %s) %s: overall exit %s" % (" ".join(cmd), sub, label, mm.group(1)))
+        meta["ran"].append("pinned suite (tools/baseline_check.py) with the change: " + m3.group(1))
+        meta["demo_dirs"] = sorted(bydir)
+        meta["demo_fails_with_change"] = m1.group(1) != "0"
+        meta["demo_passes_without_change"] = m2.group(1) == "0"
+        meta["suite_passes_with_change"] = m3.group(2) == "0"
+        assert meta["demo_fails_with_change"] and meta["demo_passes_without_change"] and meta["suite_passes_with_change"], "the logged confirmation was not clean"
+        a.no_confirm = True
     if not a.no_confirm:
         if os.path.isdir(WT):
             sh(["git", "-C", "/repo", "worktree", "remove", "--force", WT])
@@ -125,8 +155,22 @@ def main():
                 meta["checks_fired_note"] = "re-run with the final checker on a scratch copy of /repo HEAD with the patch applied (the confirmation run applied the patch to /repo itself)"
                 json.dump(meta, open(mp, "w"), indent=1)
                 print("refreshed", a.refresh, sorted(fired), "own:", meta["detected_by_own_property"])
+                return
         finally:
             shutil.rmtree(tmp, ignore_errors=True)
+        if a.keep_as:
+            meta["checks_fired"] = fired
+            meta["detected_by_own_property"] = a.prop in fired and fired[a.prop]["exit"] == 1
+            meta["checks_fired_note"] = "the checks were run on a scratch copy of /repo HEAD with the patch applied"
+            dst = os.path.join(ROOT, "seeded", a.keep_as)
+            os.makedirs(dst, exist_ok=True)
+            for f in [patch] + demos + glob.glob(os.path.join(a.seed, "notes.md")):
+                shutil.copy(f, dst)
+            meta["needs_to_manifest"] = a.needs
+            meta["demo_dir"] = a.demo_dir
+            meta["demo_tests"] = tests
+            json.dump(meta, open(os.path.join(dst, "meta.json"), "w"), indent=1)
+            print("kept as", dst)
         return
     # detection
     rc, out = sh(["git", "-C", "/repo", "status", "--porcelain"])
